@@ -72,7 +72,7 @@ CLAIMED = {
  "C01": dict(
    technique="translation validation per corpus program: real front end run natively, back end executed symbolically from MIR (mirsym -> z3), body compared with a hand-written denotation",
    category="translation_validation",
-   text="20 corpus programs (integer arithmetic with left-nested and parenthesised subtraction and negation, multi-asset arithmetic, input datum with spread, out-of-order record fields and variant cases, mint/burn/validity/signers/metadata/reference/collateral, net mint of several blocks, list index / concat / list / map literals, indexed access into an input datum, locals and env, a policy read as address / bytes / asset, time/slot built-ins before and after the chain tip, two inputs, a metadata integer over the whole i128 range, datum fields used in validity / signers / metadata, min_utxo of a named output behind anonymous and optional outputs incl. a second pass, withdrawal and donation, publish with reference script, vote-delegation certificate, asset definitions, aliases, a many-input, a burn, two transactions whose names differ in case) x 3 whitespace/comment layouts are parsed, analysed and lowered by the repository's own front end; the lowered TIR is then applied, reduced and compiled by the real back end executed from MIR with arguments, UTxO amounts and fee symbolic, and z3 shows every output (address, lovelace, per-class native assets, datum tree, order), mint quantity, validity bound, signer, reference, collateral, input, metadata entry and the fee equal to the denotation written by hand for that program.",
+   text="24 corpus programs (integer arithmetic with left-nested and parenthesised subtraction and negation, multi-asset arithmetic, input datum with spread, out-of-order record fields and variant cases, mint/burn/validity/signers/metadata/reference/collateral, net mint of several blocks, list index / concat / list / map literals, indexed access into an input datum, locals and env, a policy read as address / bytes / asset, time/slot built-ins before and after the chain tip, two inputs, a metadata integer over the whole i128 range, datum fields used in validity / signers / metadata, min_utxo of a named output behind anonymous and optional outputs incl. a second pass, withdrawal and donation, publish with reference script, vote-delegation certificate, asset definitions, aliases, a many-input, a burn, two transactions whose names differ in case, a record field named like the parameter assigned to it, Bool / string / unit values, a collateral block selected by party, nested lists and maps of records, concat in an asset name, a declared policy inside AnyAsset, a script-locked input with a burn) x 3 whitespace/comment layouts are parsed, analysed and lowered by the repository's own front end; the lowered TIR is then applied, reduced and compiled by the real back end executed from MIR with arguments, UTxO amounts and fee symbolic, and z3 shows every output (address, lovelace, per-class native assets, datum tree, order), mint quantity, validity bound, signer, reference, collateral, input, metadata entry and the fee equal to the denotation written by hand for that program.",
    note="programs are enumerated (the corpus), not solver-quantified; counterexamples about outputs, fee and validity are replayed on the native binary (it must observe what engine M computed) before they are reported; one known finding (min_utxo of an output behind an omitted optional output); amounts below 2^16 (quick) / 2^40 (thorough); one UTxO per input; byte-level CBOR outside.",
    design="§3 C01, §A.6"),
  "C20": dict(
